@@ -248,6 +248,9 @@ def send_request(draw):
                                                            'nlri': draw(st.lists(st.fixed_dictionaries({
                                                                'prefix': vs.prefix4(), 'rd': vs.rd_text(),
                                                                'label': st.lists(vs.label, min_size=1, max_size=1)}), min_size=1, max_size=3))}}
+    if shape in ('v6', 'vpn4') and draw(st.booleans()):
+        # one request that withdraws IPv4 routes and carries an MP_REACH attribute (no IPv4 NLRI): both go out
+        req['withdraw'] = (draw(prefix_list)[:4] or ['10.66.0.0/16'])
     return {'ibgp': ibgp, 'as4': as4, 'hold': hold, 'rib': rib, 'pre': pre, 'shape': shape, 'req': req}
 
 
